@@ -5,6 +5,13 @@ From Coq Require Import NArith List.
 
 Inductive kshape :=
 | KFixed (n : N)      (* body has exactly n bytes *)
-| KTerm (t : N).      (* body = s ++ [t] for a caller-supplied byte string s *)
+| KTerm (t : N)       (* body = s ++ [t] for a caller-supplied byte string s *)
+| KRaw (n : N)        (* body = the caller's byte string, unchecked (NewTKeyByCoord(izyx), labelvol.NewTKey);
+                         the typed constructors (NewTKey(idx)) hand in exactly n bytes *)
+| KDecSep (sep : N) (ext : list N)
+                      (* body = decimal digits of a uint64 ++ [sep] ++ ext  (tarsupervoxels: "<supervoxel>.<ext>",
+                         ext being the instance's fixed Extension) *)
+| KLegacy (n : N).    (* no storage.NewTKey header: the TKey is n bytes laid out by the constructor itself and
+                         the class byte is the first of them (imagetile: DataShape bytes start with dims = 3) *)
 
 Record kclass := { kc_class : N; kc_shape : kshape }.
